@@ -9,6 +9,7 @@ compactor that drew each of them (`lv`, ghost) and the ghost flag `oddConst` (so
 derives from no draw: the constructor's `coin_(false)`).  Only property statements live here; lemmas are in DSProofs/Lemmas/Req*.lean.
 -/
 import DSProofs.Lemmas.ReqUnbiased
+import DSProofs.Lemmas.ReqOdd
 import DSProofs.Props.C07_Req
 namespace DS.Req
 
@@ -118,6 +119,14 @@ theorem req_unbiased_partial {T : Tun} (hT : TunOK T) (F : SecFns ρ) (ops : Lis
   have : (items.filter p).length = cntP p items := rfl
   rw [this]
   exact_mod_cast h2
+
+/-- req_unbiased for streams: a history WITHOUT merge operations (any number of sketches, updates, copies, queries) always
+satisfies the hypothesis, so for every stream the identity holds unconditionally; only merge trees can break it -/
+theorem req_unbiased_streams {T : Tun} (hT : TunOK T) (F : SecFns ρ) (ops : List Op) (hnm : ∀ op ∈ ops, isMerge op = false)
+    (id : Nat) (items : List Int) (hin : inputOf ops id = some items) (p : Int → Bool) :
+    sumOverCoins T F ops id p = 2 ^ (run T F ops []).2.used * (items.filter p).length :=
+  req_unbiased_partial hT F ops id items hin
+    (runOps_odd T F ops hnm ([] : Store ρ) (Acc.init []) (fun _ _ hg => by simp [Store.get, AL.get] at hg) rfl) p
 
 /-- in particular: the rank numerator REQ reports (`req_rank_eq_view_rank`: direct rank = view rank = weight below), summed over all
 coin vectors, is 2^F times the true count — i.e. the estimated rank averaged over the coin flips is the true rank -/
